@@ -27,6 +27,9 @@ func (u *Unit) syncCall(st *State, call *ast.CallExpr, fn *types.Func, sel *ast.
 		lv := u.mutexLV(st, sel)
 		name := exprText(sel.X)
 		u.stubsUsed["model:sync."+fn.Name()] = true
+		if len(u.frames) == 1 {
+			u.runAnchorsNamed(st, "before:"+fn.Name(), call.Pos(), nil)
+		}
 		switch fn.Name() {
 		case "Lock", "RLock":
 			cur := u.load(st, lv).term()
@@ -398,7 +401,7 @@ func (u *Unit) libraryModel(st *State, cs *callSite) ([]Value, bool) {
 		return []Value{boolV(okT)}, true
 	case "os.IsNotExist":
 		mark()
-		f := u.d.Fun("isNotExist", []Sort{SInt}, SBool)
+		f := u.d.Fun("spec_notExist", []Sort{SInt}, SBool) // = spec func notExist in stubs/std.spec
 		e := cs.args[0].term()
 		r := App(f, SBool, e)
 		st.assume(Imp(Eq(e, IntLit(0)), Not(r)))
